@@ -836,24 +836,30 @@ Lemma exec_oplist_cons f ss (c : bool) o r : exec_oplist rt mt (S f) false ss c 
   (let* (_, s1) := exec_operand rt mt f false ss c o in exec_oplist rt mt f false s1 c r).
 Proof. reflexivity. Qed.
 
-Definition target_cmd (k : target_kind) (c : bool) (n : string) (rf : regfile) (w : world) : dres :=
+Definition target_cmdv (k : target_kind) (c : bool) (name : value) (rf : regfile) (w : world) : dres :=
   match k, c with
-  | TLight, true => do_color_light rf w (VStr n)
-  | TGroup, true => do_color_set OD_GROUP rf w (VStr n)
-  | TLocation, true => do_color_set OD_LOCATION rf w (VStr n)
-  | TLight, false => do_power_light rf w (VStr n)
-  | TGroup, false => do_power_set OD_GROUP rf w (VStr n)
-  | TLocation, false => do_power_set OD_LOCATION rf w (VStr n)
+  | TLight, true => do_color_light rf w name
+  | TGroup, true => do_color_set OD_GROUP rf w name
+  | TLocation, true => do_color_set OD_LOCATION rf w name
+  | TLight, false => do_power_light rf w name
+  | TGroup, false => do_power_set OD_GROUP rf w name
+  | TLocation, false => do_power_set OD_LOCATION rf w name
   end.
+Definition target_cmd (k : target_kind) (c : bool) (n : string) (rf : regfile) (w : world) : dres := target_cmdv k c (VStr n) rf w.
+Lemma exec_operand_targetv f ss (c : bool) k n : exec_operand rt mt (S f) false ss c (Target k n) =
+  dev_step ss (target_cmdv k c (name_of mt ss n) (s_regs ss) (s_world ss)).
+Proof. destruct k, c; reflexivity. Qed.
 Lemma exec_operand_target f ss (c : bool) k n : exec_operand rt mt (S f) false ss c (Target k (NStr n)) =
   dev_step ss (target_cmd k c n (s_regs ss) (s_world ss)).
 Proof. destruct k, c; reflexivity. Qed.
 
-Lemma target_cmd_respects k c n a b w : agree a b -> target_cmd k c n a w = rebase a (target_cmd k c n b w).
+Lemma target_cmdv_respects k c name a b w : agree a b -> target_cmdv k c name a w = rebase a (target_cmdv k c name b w).
 Proof.
-  intros H. destruct k, c; cbn [target_cmd];
+  intros H. destruct k, c; cbn [target_cmdv];
     [apply do_color_light_agree|apply do_power_light_agree|apply do_color_set_agree|apply do_power_set_agree|apply do_color_set_agree|apply do_power_set_agree]; exact H.
 Qed.
+Lemma target_cmd_respects k c n a b w : agree a b -> target_cmd k c n a w = rebase a (target_cmd k c n b w).
+Proof. apply target_cmdv_respects. Qed.
 
 Definition all_cmd (c : bool) (rf : regfile) (w : world) : dres := if c then do_color_all rf w else do_power_all rf w.
 Lemma all_cmd_respects c a b w : agree a b -> all_cmd c a w = rebase a (all_cmd c b w).
@@ -863,12 +869,16 @@ Definition kind_operand (k : target_kind) : operand := match k with TLight => OD
 Definition cmd_op (c : bool) : opcode := if c then OC_COLOR else OC_POWER.
 
 (* the machine's command instruction, once NAME and OPERAND are loaded *)
-Lemma exec_cmd_target im s (c : bool) k n :
-  rf_get (m_regs s) R_NAME = Some (VStr n) -> rf_get (m_regs s) R_OPERAND = Some (VOperand (kind_operand k)) ->
-  Machine.exec im (I0 (cmd_op c)) s = dev_outcome s (target_cmd k c n (m_regs s) (m_world s)).
+Lemma exec_cmd_targetv im s (c : bool) k name :
+  rf_get (m_regs s) R_NAME = Some name -> rf_get (m_regs s) R_OPERAND = Some (VOperand (kind_operand k)) ->
+  Machine.exec im (I0 (cmd_op c)) s = dev_outcome s (target_cmdv k c name (m_regs s) (m_world s)).
 Proof.
   intros Hn Ho. destruct c; cbn [cmd_op Machine.exec i_op I0]; unfold cmd_color, cmd_power, reg, get_reg; rewrite Hn, Ho; destruct k; reflexivity.
 Qed.
+Lemma exec_cmd_target im s (c : bool) k n :
+  rf_get (m_regs s) R_NAME = Some (VStr n) -> rf_get (m_regs s) R_OPERAND = Some (VOperand (kind_operand k)) ->
+  Machine.exec im (I0 (cmd_op c)) s = dev_outcome s (target_cmd k c n (m_regs s) (m_world s)).
+Proof. apply exec_cmd_targetv. Qed.
 Lemma exec_cmd_all im s (c : bool) :
   rf_get (m_regs s) R_OPERAND = Some (VOperand OD_ALL) ->
   Machine.exec im (I0 (cmd_op c)) s = dev_outcome s (all_cmd c (m_regs s) (m_world s)).
@@ -881,7 +891,8 @@ Section Sim7.
 Variable rt : rtable.
 Variable mt : mtable.
 
-Definition simple_opnd (o : opnd) : bool := match o with Target _ (NStr _) => true | _ => false end.
+Definition simple_name (n : nameref) : bool := match n with NStr _ | NVar _ => true | NMacro m => simple_value (macro mt m) end.
+Definition simple_opnd (o : opnd) : bool := match o with Target _ n => simple_name n | _ => false end.
 Definition simple_ops (ops : operands) : bool :=
   match ops with OpAll => true | OpList l => forallb simple_opnd l | OpDefault => false end.
 
@@ -889,9 +900,9 @@ Lemma c_ops_all op : c_ops rt mt false op OpAll = [I2 OC_MOVEQ (POperand OD_ALL)
 Proof. reflexivity. Qed.
 Lemma c_ops_nil op : c_ops rt mt false op (OpList []) = [].
 Proof. reflexivity. Qed.
-Lemma c_ops_cons op k n r : c_ops rt mt false op (OpList (Target k (NStr n) :: r)) =
-  [I2 OC_MOVEQ (PStr n) (PReg R_NAME); I2 OC_MOVEQ (POperand (kind_operand k)) (PReg R_OPERAND); I0 op] ++ c_ops rt mt false op (OpList r).
-Proof. destruct k; reflexivity. Qed.
+Lemma c_ops_cons op k n r : c_ops rt mt false op (OpList (Target k n :: r)) =
+  (c_name mt n ++ [I2 OC_MOVEQ (POperand (kind_operand k)) (PReg R_OPERAND); I0 op]) ++ c_ops rt mt false op (OpList r).
+Proof. destruct k, n; reflexivity. Qed.
 
 (* loading a scratch register *)
 Lemma load_hidden im ss s p r v : sim ss s -> visible r = false -> register_eqb R_DISC_FORWARD r = false -> writable r = true -> param_value p = Some v ->
@@ -905,27 +916,40 @@ Proof.
   apply lift_put; exact Hok.
 Qed.
 
-Lemma sim_one_target (c : bool) k n im ss s ss1 : sim ss s ->
-  code_at im (m_pc s) [I2 OC_MOVEQ (PStr n) (PReg R_NAME); I2 OC_MOVEQ (POperand (kind_operand k)) (PReg R_OPERAND); I0 (cmd_op c)] ->
-  dev_step ss (target_cmd k c n (s_regs ss) (s_world ss)) = ROk tt ss1 ->
+(* NAME := the name the operand denotes: a string, the value of a macro or of a variable *)
+Lemma load_name n im ss s : simple_name n = true -> sim ss s -> code_at im (m_pc s) (c_name mt n) ->
+  esteps 1 im s = Some (put_vm s (DReg R_NAME) (name_of mt ss n) 1, []) /\ sim ss (put_vm s (DReg R_NAME) (name_of mt ss n) 1).
+Proof.
+  intros Hn Hsim Hc. destruct n as [x|m|x]; cbn [c_name code_at name_of simple_name] in *; destruct Hc as [Hf _].
+  - exact (load_hidden im ss s (PStr x) R_NAME (VStr x) Hsim eq_refl eq_refl eq_refl eq_refl Hf).
+  - exact (load_hidden im ss s (macro_param mt m) R_NAME (macro mt m) Hsim eq_refl eq_refl eq_refl (param_value_of_value _ Hn) Hf).
+  - split; [|apply sim_put_reg_hidden; [exact Hsim|reflexivity|reflexivity]].
+    apply (estep1 im s _ _ _ Hf). cbn [Machine.exec i_op i_p0 i_p1 I2 read_name]. rewrite (sim_lookup ss s x Hsim). cbn [bind].
+    change (PReg R_NAME) with (dest_param (DReg R_NAME)). apply lift_put. reflexivity.
+Qed.
+
+Lemma sim_one_target (c : bool) k n im ss s ss1 : simple_name n = true -> sim ss s ->
+  code_at im (m_pc s) (c_name mt n ++ [I2 OC_MOVEQ (POperand (kind_operand k)) (PReg R_OPERAND); I0 (cmd_op c)]) ->
+  dev_step ss (target_cmdv k c (name_of mt ss n) (s_regs ss) (s_world ss)) = ROk tt ss1 ->
   exists s1 evs, esteps 3 im s = Some (s1, evs) /\ sim ss1 s1 /\ m_pc s1 = m_pc s + 3 /\ (m_stack s1, fr s1) = (m_stack s, fr s) /\
                  rev (s_trace ss1) = rev (s_trace ss) ++ evs.
 Proof.
-  intros Hsim Hc Hd. cbn [code_at] in Hc. destruct Hc as [Hf1 [Hf2 [Hf3 _]]].
-  destruct (load_hidden im ss s (PStr n) R_NAME (VStr n) Hsim eq_refl eq_refl eq_refl eq_refl Hf1) as [E1 Hs1].
-  set (s1 := put_vm s (DReg R_NAME) (VStr n) 1) in *.
+  intros Hnm Hsim Hc Hd. apply code_at_app in Hc. destruct Hc as [Hcn Hc].
+  assert (Hzn : zlength (c_name mt n) = 1) by (destruct n; reflexivity). rewrite Hzn in Hc. cbn [code_at] in Hc. destruct Hc as [Hf2 [Hf3 _]].
+  destruct (load_name n im ss s Hnm Hsim Hcn) as [E1 Hs1].
+  set (name := name_of mt ss n) in *.
+  set (s1 := put_vm s (DReg R_NAME) name 1) in *.
   destruct (load_hidden im ss s1 (POperand (kind_operand k)) R_OPERAND (VOperand (kind_operand k)) Hs1 eq_refl eq_refl eq_refl eq_refl Hf2) as [E2 Hs2].
   set (s2 := put_vm s1 (DReg R_OPERAND) (VOperand (kind_operand k)) 1) in *.
-  assert (Hn : rf_get (m_regs s2) R_NAME = Some (VStr n)).
+  assert (Hn : rf_get (m_regs s2) R_NAME = Some name).
   { unfold s2, s1. cbn [put_vm m_regs]. rewrite rf_get_set_other by reflexivity. apply rf_get_set_same. }
   assert (Ho : rf_get (m_regs s2) R_OPERAND = Some (VOperand (kind_operand k))) by (unfold s2; cbn [put_vm m_regs]; apply rf_get_set_same).
-  destruct (dev_sim (target_cmd k c n) (target_cmd_respects k c n) ss s2 ss1 Hs2 Hd) as (s3 & evs & Ho3 & Hs3 & Hpc & Hst & Htr).
-  assert (Hf3' : fetch im (m_pc s2) = Some (I0 (cmd_op c))).
-  { unfold s2, s1. cbn [put_vm m_pc]. replace (m_pc s + 1 + 1) with (m_pc s + 1 + 1) by lia. exact Hf3. }
+  destruct (dev_sim (target_cmdv k c name) (target_cmdv_respects k c name) ss s2 ss1 Hs2 Hd) as (s3 & evs & Ho3 & Hs3 & Hpc & Hst & Htr).
+  assert (Hf3' : fetch im (m_pc s2) = Some (I0 (cmd_op c))) by exact Hf3.
   exists s3, evs. split.
   - change 3%nat with (1 + (1 + 1))%nat. replace evs with ([] ++ ([] ++ evs)) by reflexivity.
     eapply esteps_app; [exact E1|]. eapply esteps_app; [exact E2|].
-    apply (estep1 im s2 _ _ _ Hf3'). rewrite (exec_cmd_target im s2 c k n Hn Ho). exact Ho3.
+    apply (estep1 im s2 _ _ _ Hf3'). rewrite (exec_cmd_targetv im s2 c k name Hn Ho). exact Ho3.
   - split; [exact Hs3|]. split; [rewrite Hpc; unfold s2, s1; cbn [put_vm m_pc]; lia|]. split; [rewrite Hst; reflexivity|exact Htr].
 Qed.
 
@@ -940,16 +964,18 @@ Proof.
     exists 0%nat, s, []. rewrite c_ops_nil. split; [reflexivity|]. split; [exact Hsim|]. split; [unfold zlength; cbn; lia|].
     split; [reflexivity|rewrite app_nil_r; reflexivity].
   - cbn [forallb] in Hl. apply andb_true_iff in Hl. destruct Hl as [Ho Hr].
-    destruct o as [k [n|m|x]| | |]; cbn [simple_opnd] in Ho; try discriminate.
+    destruct o as [k n| | |]; cbn [simple_opnd] in Ho; try discriminate.
     destruct fuel as [|fuel]; [discriminate|]. rewrite exec_oplist_cons in He.
-    destruct fuel as [|fuel]; [discriminate|]. rewrite exec_operand_target in He.
-    destruct (dev_step ss (target_cmd k c n (s_regs ss) (s_world ss))) as [[] sa|e sa|sa] eqn:Ed; cbn [sbind] in He; try discriminate.
+    destruct fuel as [|fuel]; [discriminate|]. rewrite exec_operand_targetv in He.
+    destruct (dev_step ss (target_cmdv k c (name_of mt ss n) (s_regs ss) (s_world ss))) as [[] sa|e sa|sa] eqn:Ed; cbn [sbind] in He; try discriminate.
     rewrite c_ops_cons in Hc |- *. apply code_at_app in Hc. destruct Hc as [Hc1 Hc2].
-    destruct (sim_one_target c k n im ss s sa Hsim Hc1 Ed) as (s1 & e1 & E1 & Hs1 & Hpc1 & Hst1 & Htr1).
+    assert (Hz3 : zlength (c_name mt n ++ [I2 OC_MOVEQ (POperand (kind_operand k)) (PReg R_OPERAND); I0 (cmd_op c)]) = 3) by (destruct n; reflexivity).
+    rewrite Hz3 in Hc2.
+    destruct (sim_one_target c k n im ss s sa Ho Hsim Hc1 Ed) as (s1 & e1 & E1 & Hs1 & Hpc1 & Hst1 & Htr1).
     assert (Hc2' : code_at im (m_pc s1) (c_ops rt mt false (cmd_op c) (OpList r))) by (rewrite Hpc1; exact Hc2).
     destruct (IH Hr im sa s1 ss1 (S fuel) Hs1 Hc2' He) as (n2 & s2 & e2 & E2 & Hs2 & Hpc2 & Hst2 & Htr2).
     exists (3 + n2)%nat, s2, (e1 ++ e2). split; [eapply esteps_app; eassumption|]. split; [exact Hs2|].
-    split; [rewrite Hpc2, Hpc1; unfold zlength; rewrite app_length, Nat2Z.inj_add; cbn [length]; lia|].
+    split; [rewrite Hpc2, Hpc1; fold (zlength (c_name mt n ++ [I2 OC_MOVEQ (POperand (kind_operand k)) (PReg R_OPERAND); I0 (cmd_op c)])) in *; unfold zlength in *; rewrite app_length, Nat2Z.inj_add; lia|].
     split; [rewrite Hst2; exact Hst1|]. rewrite Htr2, Htr1, app_assoc. reflexivity.
 Qed.
 End Sim7.
@@ -960,7 +986,7 @@ Variable mt : mtable.
 
 Definition ops_size (ops : operands) : nat := match ops with OpList l => (2 * length l + 3)%nat | _ => 3%nat end.
 
-Lemma sim_ops (c : bool) ops : simple_ops ops = true ->
+Lemma sim_ops (c : bool) ops : simple_ops mt ops = true ->
   forall im ss s ss1 fuel, sim ss s -> code_at im (m_pc s) (c_ops rt mt false (cmd_op c) ops) ->
   exec_ops rt mt fuel false ss c ops = ROk tt ss1 ->
   exists n s1 evs, esteps n im s = Some (s1, evs) /\ sim ss1 s1 /\ m_pc s1 = m_pc s + zlength (c_ops rt mt false (cmd_op c) ops) /\
@@ -990,7 +1016,7 @@ Lemma c_power (on : bool) ops : c_stmt rt mt false None (if on then SOn ops else
   [I2 OC_MOVEQ (PBool on) (PReg R_POWER)] ++ [I0 OC_WAIT] ++ c_ops rt mt false OC_POWER ops.
 Proof. destruct on; reflexivity. Qed.
 
-Lemma sim_SSet ops im ss s ss' fuel : simple_ops ops = true -> sim ss s ->
+Lemma sim_SSet ops im ss s ss' fuel : simple_ops mt ops = true -> sim ss s ->
   code_at im (m_pc s) (c_stmt rt mt false None (SSet ops)) ->
   Sem.exec rt mt fuel false ss (SSet ops) = ROk SigNormal ss' -> simulates im ss s ss' (c_stmt rt mt false None (SSet ops)).
 Proof.
@@ -1006,7 +1032,7 @@ Proof.
   split; [rewrite Hst2; reflexivity|]. rewrite Ht2, Ht1, app_assoc. reflexivity.
 Qed.
 
-Lemma sim_power (on : bool) ops im ss s ss' fuel : simple_ops ops = true -> sim ss s ->
+Lemma sim_power (on : bool) ops im ss s ss' fuel : simple_ops mt ops = true -> sim ss s ->
   code_at im (m_pc s) (c_stmt rt mt false None (if on then SOn ops else SOff ops)) ->
   Sem.exec rt mt fuel false ss (if on then SOn ops else SOff ops) = ROk SigNormal ss' ->
   simulates im ss s ss' (c_stmt rt mt false None (if on then SOn ops else SOff ops)).
@@ -1046,7 +1072,7 @@ Definition simple_atom (st : stmt) : bool :=
   | SAssign y v => plain_rval mt v && ok_dest (DVar y) v
   | SUnits _ | SWait => true
   | SPrint (Some v) | SPrintln (Some v) => plain_rval mt v
-  | SSet ops | SOn ops | SOff ops => simple_ops ops
+  | SSet ops | SOn ops | SOff ops => simple_ops mt ops
   | _ => false
   end.
 
@@ -1185,13 +1211,13 @@ Proof.
   - apply andb_true_iff in Hp. destruct Hp as [Hs _]. rewrite c_rval_expr, forallb_app, (c_expr_no_routine e Hs). reflexivity.
 Qed.
 
-Lemma c_ops_no_routine op ops : not_routine (I0 op) = true -> simple_ops ops = true -> forallb not_routine (c_ops rt mt false op ops) = true.
+Lemma c_ops_no_routine op ops : not_routine (I0 op) = true -> simple_ops mt ops = true -> forallb not_routine (c_ops rt mt false op ops) = true.
 Proof.
   intros Hop Hs. destruct ops as [| |l]; cbn [simple_ops] in Hs; try discriminate.
   - rewrite c_ops_all. cbn [forallb]. rewrite Hop. reflexivity.
   - induction l as [|o r IH]; [reflexivity|]. cbn [forallb] in Hs. apply andb_true_iff in Hs. destruct Hs as [Ho Hr].
-    destruct o as [k [n|m|x]| | |]; cbn [simple_opnd] in Ho; try discriminate.
-    rewrite c_ops_cons, forallb_app, (IH Hr). cbn [forallb]. rewrite Hop. reflexivity.
+    destruct o as [k n| | |]; cbn [simple_opnd] in Ho; try discriminate.
+    rewrite c_ops_cons, !forallb_app, (IH Hr). cbn [forallb]. rewrite Hop. destruct n; reflexivity.
 Qed.
 
 Lemma atom_no_routine st : simple_atom mt st = true -> forallb not_routine (c_stmt rt mt false None st) = true.
